@@ -256,7 +256,7 @@ func c13execute(initial map[string]map[string]any, stream string) (r c13run) {
 
 func TestC13(t *testing.T) {
 	e := vlib.GetEnv()
-	n := e.Pick(600, 40000)
+	n := e.Pick(600, 300000)
 	vlib.RunCases(t, "C13", "streams", n, func(c *vlib.Case) vlib.Result {
 		var res vlib.Result
 		rng := c.Rng
